@@ -54,6 +54,16 @@ def relevant(hyps, goal, depth=2):
     return [h for i, (h, _) in enumerate(hs) if i in keep]
 
 
+def keep_hyp(label, keep, clause):
+    """proof hints: unlabelled hypotheses stay; labelled ones (invariant clauses, cut facts, callee postconditions, axiom
+    instances) stay when named; preconditions ('requires:<clause>') stay unless the hint lists '-requires:<clause>'"""
+    if label is None or label in keep or label == clause:
+        return True
+    if label.startswith('requires:') or label.startswith('fact:'):
+        return ('-' + label) not in keep
+    return False
+
+
 def verify(qual, timeout_ms=20000, verbose=False, part=None):
     """part=(k, n): discharge only the obligation groups with index % n == k (parallel slices)"""
     c = REGISTRY[qual]
@@ -79,7 +89,7 @@ def verify(qual, timeout_ms=20000, verbose=False, part=None):
         out['status'] = 'error'
         out['reason'] = traceback.format_exc()
         return out
-    bg = background(eng)
+    bg0 = bg = background(eng)
     groups = {}
     for o in obls:
         groups.setdefault(o.name, []).append(o)
@@ -88,15 +98,22 @@ def verify(qual, timeout_ms=20000, verbose=False, part=None):
             continue
         verdict, secs, why, model = 'proved', 0.0, '', None
         for o in os_:
+            bg = bg0 + S.card_mono_axioms() if o.info.get('clause') in c.card_mono else bg0
             if z3.is_true(z3.simplify(o.goal)):
                 continue
             v, dt = 'unknown', 0.0
-            keep = c.hints.get(o.info.get('clause')) or c.hints.get('*')
+            cl = o.info.get('clause')
+            keep = c.hints.get('%s:%s' % (o.kind, cl))      # most specific: '<kind>:<clause>' (inv-init / inv-step / post / cut ...)
+            if keep is None:
+                keep = c.hints.get(cl)
+            if keep is None:
+                keep = c.hints.get(o.kind + ':*')
+            if keep is None:
+                keep = c.hints.get('*')
             if keep is not None:
                 # proof hint: first try with the labelled hypotheses restricted to the named clauses
                 # (dropping hypotheses is always sound)
-                hy = [h for h in o.hyps if eng.labels.get(h.get_id()) is None or eng.labels[h.get_id()] in keep
-                      or eng.labels[h.get_id()] == o.info.get('clause')]
+                hy = [h for h in o.hyps if keep_hyp(eng.labels.get(h.get_id()), keep, o.info.get('clause'))]
                 v, m, dt, w = check_one(hy, o.goal, bg, min(timeout_ms, 8000))
                 secs += dt
                 if v == 'sat':
